@@ -1,5 +1,7 @@
 package model
 
+import "math"
+
 func typeName(e *Entry) string {
 	if e == nil {
 		return "none"
@@ -140,8 +142,36 @@ func init() {
 				return errOut(n)
 			}
 		}
-		if sec > (1<<62)/1000 || sec < -(1<<62)/1000 {
-			return errOut(n)
+		if sec > (math.MaxInt64-n.NowMs)/1000 {
+			return errOut(n) // the deadline is not representable: "invalid expire time"
+		}
+		if sec < -(1<<62)/1000 {
+			// the reference rejects it (overflow of the millisecond value); treating it as a deadline
+			// in the past (the key is deleted, reply 1 / 0 by option) is equally consistent with the
+			// property: both accepted
+			alt := begin(s)
+			var outs []Outcome
+			outs = append(outs, Outcome{Reply: MErr(), Next: begin(s)})
+			k := string(a[1])
+			e := alt.M[k]
+			if e == nil {
+				return append(outs, Outcome{Reply: MInt(0), Next: alt})
+			}
+			switch opt {
+			case "nx":
+				if e.Exp != 0 {
+					return append(outs, Outcome{Reply: MInt(0), Next: alt})
+				}
+			case "xx", "gt":
+				if e.Exp == 0 {
+					return append(outs, Outcome{Reply: MInt(0), Next: alt})
+				}
+				if opt == "gt" {
+					return append(outs, Outcome{Reply: MInt(0), Next: alt})
+				}
+			}
+			delete(alt.M, k)
+			return append(outs, Outcome{Reply: MInt(1), Next: alt})
 		}
 		k := string(a[1])
 		e := n.M[k]
